@@ -170,6 +170,18 @@ CHECKS["C03"] = dict(
     note="Assumed: single thread; children satisfy the same contract; a node whose id is already bound reads the flag its enclosing evaluation left "
          "(entry protocol, not havoc'd); user code pure and repeatable.",
 )
+CHECKS["C15"] = dict(
+    category="other",
+    technique="contract-based deductive verification: step lemma per inference rule of PropertyDescriptorRelation (real ast executed with an abstract symbol graph / class diagram, loop rule over the edge streams, ghost log of inferred relations) + bounded all-orders driver against a naive fixpoint",
+    text="add_to_graph (new edge: write-back iff inferred, then super, inverse, transitive once each; known edge: nothing), infer_super_relations "
+         "(every (domain, field) of super_relations yields exactly one inferred relation to the same target), super_relations (direct then role-taker "
+         "fields), get_fields_of_superproperties (strict super-properties), infer_inverse_relation (field on the target, else on its role taker, else an "
+         "error), get_associated_field_of_domain_type (exact class), the two transitive composition loops (every same-class edge leaving the target / "
+         "entering the source is combined with the right end points) and the field write-back are discharged from the real bodies. "
+         "Level 'other': that these step lemmas compose to the full closure in every order is argued (module docstring) and measured: every order of "
+         "assertion sets of size <= 4 (thorough 5) over 2 persons / 3 companies / a CEO role, incl. cycles and diamonds, fields and graph vs fixpoint.",
+    note="Assumed: SymbolGraph.add_relation / relation queries (C14), class-diagram queries (C17), MonitoredContainer._update (C16); monotone histories.",
+)
 NOT_APPLICABLE = {
     "C05": "decided by SQLAlchemy/SQLite semantics acting on generated code; no krrood function body carries it, so no contract within reach can express it (DESIGN.md §4)",
 }
